@@ -137,6 +137,14 @@ def r1_scalar(program, rep):
                 reached += 1
                 got = it.sym(r.value, node)
                 if not it.holds_at(node, eq(got, want)):
+                    if any(isinstance(x, ast.Subscript)
+                           for x in ast.walk(r.value)):
+                        # the result is looked up in a table: which entry
+                        # is chosen is not followed by the interval proof
+                        raise AnalysisError(
+                            "float_to_fp: the converter returns %s, a table "
+                            "look-up these rules do not follow" %
+                            unparse(r.value))
                     ok = False
                     detail = "%s the range: returns %s" % (name,
                                                            unparse(r.value))
